@@ -18,6 +18,7 @@ import (
 	"go/ast"
 	"go/token"
 	"go/types"
+	"golang.org/x/tools/go/types/typeutil"
 	"sort"
 	"strings"
 
@@ -250,6 +251,9 @@ func closureInventory(pkgs []*packages.Package) []string {
 	var out []string
 	for encl, cs := range iifeCalls(pkgs) {
 		out = append(out, fmt.Sprintf("%s\t#iife\t%d", encl, len(cs)))
+	}
+	for encl, ls := range eachLoops(pkgs) {
+		out = append(out, fmt.Sprintf("%s\t#eachloop\t%d", encl, len(ls)))
 	}
 	for _, cv := range closureVars(pkgs) {
 		l := cv.encl + "\t" + cv.obj.Name() + "\t" + closureSig(cv)
@@ -500,7 +504,6 @@ partial:
 	return nil, "", firstErr
 }
 
-
 // newIIFEs: immediately invoked function literals in functions that have more of them than on the
 // pinned tree (typically the residue of inlining a helper that takes a function argument).
 func newIIFEs(pkgs []*packages.Package, base map[string]map[string]string, skip map[string]bool) []iifeCall {
@@ -537,4 +540,668 @@ func iifeStep(c iifeCall, content []byte) ([]byte, string, error) {
 		return nil, "", err
 	}
 	return res, fmt.Sprintf("inlined an immediately invoked function literal in %s at %s", c.encl, c.pkg.Fset.Position(c.call.Pos())), nil
+}
+
+// ---- method values of new methods: recv.m  ->  func(p...) r { return recv.m(p...) } ----
+//
+// A helper struct whose new methods are handed out as callbacks (mm.Counters.Each(tm.mergeCounter)) hides
+// the callback bodies from intra-procedural rules.  The method value is eta-expanded into a function
+// literal that calls the method (same behaviour when the receiver variable is never re-assigned: a
+// method value binds the receiver when it is evaluated, the literal reads it when it is called); the call
+// inside the literal is then inlined like any other call of a new helper.
+
+type methodValueUse struct {
+	sel  *ast.SelectorExpr
+	fn   *types.Func
+	file *ast.File
+	pkg  *packages.Package
+	encl *ast.FuncDecl
+}
+
+func newMethodValues(pkgs []*packages.Package, helpers map[*types.Func]declInfo, skip map[string]bool) []methodValueUse {
+	var out []methodValueUse
+	for _, d := range moduleDecls(pkgs) {
+		info := d.pkg.TypesInfo
+		var stack []ast.Node
+		ast.Inspect(d.decl.Body, func(n ast.Node) bool {
+			if n == nil {
+				stack = stack[:len(stack)-1]
+				return true
+			}
+			stack = append(stack, n)
+			sel, ok := n.(*ast.SelectorExpr)
+			if !ok {
+				return true
+			}
+			s := info.Selections[sel]
+			if s == nil || s.Kind() != types.MethodVal {
+				return true
+			}
+			fn, _ := s.Obj().(*types.Func)
+			if fn == nil {
+				return true
+			}
+			if _, isNew := helpers[fn.Origin()]; !isNew || skip["mval:"+fn.FullName()] {
+				return true
+			}
+			// not the function operand of a call (that is an ordinary method call)
+			if len(stack) >= 2 {
+				if call, isCall := stack[len(stack)-2].(*ast.CallExpr); isCall && ast.Unparen(call.Fun) == ast.Expr(sel) {
+					return true
+				}
+			}
+			out = append(out, methodValueUse{sel: sel, fn: fn, file: d.file, pkg: d.pkg, encl: d.decl})
+			return true
+		})
+	}
+	return out
+}
+
+func methodValueStep(u methodValueUse, content []byte) ([]byte, string, error) {
+	info := u.pkg.TypesInfo
+	id, ok := ast.Unparen(u.sel.X).(*ast.Ident)
+	if !ok {
+		return nil, "", fmt.Errorf("receiver of the method value is not a variable")
+	}
+	if !neverReassigned(info, u.encl, info.Uses[id]) {
+		return nil, "", fmt.Errorf("receiver %s may change", id.Name)
+	}
+	switch info.TypeOf(u.sel.X).Underlying().(type) {
+	case *types.Pointer, *types.Interface:
+	default:
+		// the method value copies the receiver when it is evaluated: the same as reading it at the call
+		// only if the variable's value never changes at all
+		if !neverMutated(info, u.encl, info.Uses[id]) {
+			return nil, "", fmt.Errorf("method value with a copied receiver that may change")
+		}
+	}
+	sig := u.fn.Type().(*types.Signature)
+	if sig.Variadic() {
+		return nil, "", fmt.Errorf("variadic method")
+	}
+	// type strings relative to the file: only types whose packages are already imported under their own name
+	fileImports := map[string]string{}
+	for _, imp := range u.file.Imports {
+		var pn *types.PkgName
+		if imp.Name != nil {
+			pn, _ = info.Defs[imp.Name].(*types.PkgName)
+		} else {
+			pn, _ = info.Implicits[imp].(*types.PkgName)
+		}
+		if pn != nil {
+			fileImports[pn.Imported().Path()] = pn.Name()
+		}
+	}
+	var qerr error
+	qual := func(p *types.Package) string {
+		if p == u.pkg.Types {
+			return ""
+		}
+		if n, ok := fileImports[p.Path()]; ok && n != "." && n != "_" {
+			return n
+		}
+		qerr = fmt.Errorf("package %s is not imported in the file", p.Path())
+		return p.Name()
+	}
+	var params, args []string
+	for i := 0; i < sig.Params().Len(); i++ {
+		params = append(params, fmt.Sprintf("a%d__mv %s", i, types.TypeString(sig.Params().At(i).Type(), qual)))
+		args = append(args, fmt.Sprintf("a%d__mv", i))
+	}
+	res := ""
+	ret := ""
+	if sig.Results().Len() > 0 {
+		var rs []string
+		for i := 0; i < sig.Results().Len(); i++ {
+			rs = append(rs, types.TypeString(sig.Results().At(i).Type(), qual))
+		}
+		res = " (" + strings.Join(rs, ", ") + ")"
+		ret = "return "
+	}
+	if qerr != nil {
+		return nil, "", qerr
+	}
+	tf := u.pkg.Fset.File(u.file.Pos())
+	src := string(content[tf.Offset(u.sel.Pos()):tf.Offset(u.sel.End())])
+	lit := fmt.Sprintf("func(%s)%s { %s%s(%s) }", strings.Join(params, ", "), res, ret, src, strings.Join(args, ", "))
+	out := applyTextEdits(content, []textEdit{{tf.Offset(u.sel.Pos()), tf.Offset(u.sel.End()), lit}})
+	return out, fmt.Sprintf("expanded the method value %s at %s into a function literal", src, u.pkg.Fset.Position(u.sel.Pos())), nil
+}
+
+// neverMutated: the variable is never re-assigned, none of its parts is assigned, its address is never
+// taken, explicitly or by calling a pointer-receiver method on it.
+func neverMutated(info *types.Info, fn *ast.FuncDecl, obj types.Object) bool {
+	if !neverReassigned(info, fn, obj) {
+		return false
+	}
+	root := func(e ast.Expr) types.Object {
+		for {
+			switch x := ast.Unparen(e).(type) {
+			case *ast.SelectorExpr:
+				if sel := info.Selections[x]; sel != nil && sel.Indirect() {
+					return nil // through a pointer: another object
+				}
+				e = x.X
+			case *ast.IndexExpr:
+				if _, isArr := info.TypeOf(x.X).Underlying().(*types.Array); !isArr {
+					return nil
+				}
+				e = x.X
+			case *ast.Ident:
+				return info.Uses[x]
+			default:
+				return nil
+			}
+		}
+	}
+	ok := true
+	ast.Inspect(fn, func(n ast.Node) bool {
+		switch x := n.(type) {
+		case *ast.AssignStmt:
+			for _, l := range x.Lhs {
+				if root(l) == obj {
+					ok = false
+				}
+			}
+		case *ast.IncDecStmt:
+			if root(x.X) == obj {
+				ok = false
+			}
+		case *ast.UnaryExpr:
+			if x.Op == token.AND && root(x.X) == obj {
+				ok = false
+			}
+		case *ast.RangeStmt:
+			for _, e := range []ast.Expr{x.Key, x.Value} {
+				if e != nil && x.Tok == token.ASSIGN && root(e) == obj {
+					ok = false
+				}
+			}
+		case *ast.SliceExpr:
+			if _, isArr := info.TypeOf(x.X).Underlying().(*types.Array); isArr && root(x.X) == obj {
+				ok = false // slicing an array takes its address
+			}
+		case *ast.SelectorExpr:
+			sel := info.Selections[x]
+			if sel == nil || sel.Kind() == types.FieldVal {
+				return true
+			}
+			if f, isF := sel.Obj().(*types.Func); isF {
+				if rs := f.Type().(*types.Signature).Recv(); rs != nil {
+					if _, ptrRecv := rs.Type().(*types.Pointer); ptrRecv {
+						if _, isPtr := info.TypeOf(x.X).Underlying().(*types.Pointer); !isPtr && root(x.X) == obj {
+							ok = false // (&v).m()
+						}
+					}
+				}
+			}
+		}
+		return true
+	})
+	return ok
+}
+
+// ---- explicit traversal loops: for k, m := range X { for tk, v := range m { BODY } }  ->  X.Each(func(k, tk, v) { BODY }) ----
+//
+// The four aggregate maps (Counters, Timers, Gauges, Sets) have an Each method that is exactly this
+// pair of loops; the rules identify "the traversal of mm.Counters" by the callback given to Each.  A
+// function that has more such loop pairs than on the pinned tree gets them rewritten to the Each form
+// (only when the loop body can be a function body: no return, break, goto, label or defer, and the inner
+// map variable is not used).
+
+type eachLoop struct {
+	outer, inner *ast.RangeStmt
+	file         *ast.File
+	pkg          *packages.Package
+	encl         string
+	elem         types.Type
+}
+
+// eachMethodIsPlainTraversal: func (c T) Each(f func(string, string, E)) { for k, m := range c { for tk, v := range m { f(k, tk, v) } } }
+func eachMethodIsPlainTraversal(pkgs []*packages.Package, m *types.Func) bool {
+	for _, d := range moduleDecls(pkgs) {
+		if d.fn != m {
+			continue
+		}
+		if d.decl.Recv == nil || len(d.decl.Recv.List) != 1 || len(d.decl.Recv.List[0].Names) != 1 || len(d.decl.Body.List) != 1 {
+			return false
+		}
+		recv := d.pkg.TypesInfo.Defs[d.decl.Recv.List[0].Names[0]]
+		o, ok := d.decl.Body.List[0].(*ast.RangeStmt)
+		if !ok || len(o.Body.List) != 1 || o.Tok != token.DEFINE {
+			return false
+		}
+		if id, isId := o.X.(*ast.Ident); !isId || d.pkg.TypesInfo.Uses[id] != recv {
+			return false
+		}
+		in, ok := o.Body.List[0].(*ast.RangeStmt)
+		if !ok || len(in.Body.List) != 1 || in.Tok != token.DEFINE {
+			return false
+		}
+		ov, _ := o.Value.(*ast.Ident)
+		ix, _ := in.X.(*ast.Ident)
+		if ov == nil || ix == nil || d.pkg.TypesInfo.Uses[ix] != d.pkg.TypesInfo.Defs[ov] {
+			return false
+		}
+		es, ok := in.Body.List[0].(*ast.ExprStmt)
+		if !ok {
+			return false
+		}
+		call, ok := es.X.(*ast.CallExpr)
+		if !ok || len(call.Args) != 3 {
+			return false
+		}
+		want := []ast.Expr{o.Key, in.Key, in.Value}
+		for i, a := range call.Args {
+			ai, _ := a.(*ast.Ident)
+			wi, _ := want[i].(*ast.Ident)
+			if ai == nil || wi == nil || d.pkg.TypesInfo.Uses[ai] != d.pkg.TypesInfo.Defs[wi] {
+				return false
+			}
+		}
+		fi, _ := call.Fun.(*ast.Ident)
+		if fi == nil || len(d.decl.Type.Params.List) != 1 || len(d.decl.Type.Params.List[0].Names) != 1 {
+			return false
+		}
+		return d.pkg.TypesInfo.Uses[fi] == d.pkg.TypesInfo.Defs[d.decl.Type.Params.List[0].Names[0]]
+	}
+	return false
+}
+
+func eachLoops(pkgs []*packages.Package) map[string][]eachLoop {
+	out := map[string][]eachLoop{}
+	plain := map[*types.Func]bool{}
+	for _, d := range moduleDecls(pkgs) {
+		info := d.pkg.TypesInfo
+		ast.Inspect(d.decl.Body, func(n ast.Node) bool {
+			o, ok := n.(*ast.RangeStmt)
+			if !ok || o.Tok != token.DEFINE || o.Value == nil || len(o.Body.List) != 1 {
+				return true
+			}
+			in, ok := o.Body.List[0].(*ast.RangeStmt)
+			if !ok || (in.Tok != token.DEFINE && in.Key != nil) {
+				return true
+			}
+			ov, _ := o.Value.(*ast.Ident)
+			ix, _ := ast.Unparen(in.X).(*ast.Ident)
+			if ov == nil || ix == nil || info.Uses[ix] == nil || info.Uses[ix] != info.Defs[ov] {
+				return true
+			}
+			named, ok := types.Unalias(info.TypeOf(o.X)).(*types.Named)
+			if !ok {
+				return true
+			}
+			var each *types.Func
+			for i := 0; i < named.NumMethods(); i++ {
+				if named.Method(i).Name() == "Each" {
+					each = named.Method(i)
+				}
+			}
+			if each == nil {
+				return true
+			}
+			sig := each.Type().(*types.Signature)
+			if sig.Params().Len() != 1 || sig.Results().Len() != 0 {
+				return true
+			}
+			cb, ok := sig.Params().At(0).Type().Underlying().(*types.Signature)
+			if !ok || cb.Params().Len() != 3 || cb.Results().Len() != 0 {
+				return true
+			}
+			if _, isPtr := sig.Recv().Type().(*types.Pointer); isPtr {
+				return true
+			}
+			if _, seen := plain[each]; !seen {
+				plain[each] = eachMethodIsPlainTraversal(pkgs, each)
+			}
+			if !plain[each] {
+				return true
+			}
+			out[d.fn.FullName()] = append(out[d.fn.FullName()], eachLoop{outer: o, inner: in, file: d.file, pkg: d.pkg, encl: d.fn.FullName(), elem: cb.Params().At(2).Type()})
+			return true
+		})
+	}
+	return out
+}
+
+func newEachLoops(pkgs []*packages.Package, base map[string]map[string]string, skip map[string]bool) []eachLoop {
+	var out []eachLoop
+	all := eachLoops(pkgs)
+	var encls []string
+	for e := range all {
+		encls = append(encls, e)
+	}
+	sort.Strings(encls)
+	for _, encl := range encls {
+		n := 0
+		if b, ok := base[encl]; ok {
+			fmt.Sscanf(b["#eachloop"], "%d", &n)
+		}
+		// a function that had such loops on the pinned tree keeps them (which ones are new is not decidable)
+		if n > 0 || skip["eachloop:"+encl] {
+			continue
+		}
+		out = append(out, all[encl]...)
+	}
+	return out
+}
+
+// fileQualifier renders types relative to a file: packages must already be imported under a usable name.
+func fileQualifier(pkg *packages.Package, file *ast.File, qerr *error) types.Qualifier {
+	info := pkg.TypesInfo
+	fileImports := map[string]string{}
+	for _, imp := range file.Imports {
+		var pn *types.PkgName
+		if imp.Name != nil {
+			pn, _ = info.Defs[imp.Name].(*types.PkgName)
+		} else {
+			pn, _ = info.Implicits[imp].(*types.PkgName)
+		}
+		if pn != nil {
+			fileImports[pn.Imported().Path()] = pn.Name()
+		}
+	}
+	return func(p *types.Package) string {
+		if p == pkg.Types {
+			return ""
+		}
+		if n, ok := fileImports[p.Path()]; ok && n != "." && n != "_" {
+			return n
+		}
+		*qerr = fmt.Errorf("package %s is not imported in the file", p.Path())
+		return p.Name()
+	}
+}
+
+func eachLoopStep(l eachLoop, content []byte) ([]byte, string, error) {
+	info := l.pkg.TypesInfo
+	tf := l.pkg.Fset.File(l.file.Pos())
+	src := func(n ast.Node) string { return string(content[tf.Offset(n.Pos()):tf.Offset(n.End())]) }
+	inner := l.inner
+	mObj := info.Defs[l.outer.Value.(*ast.Ident)]
+	var bad error
+	var eds []textEdit
+	// walk the body: depth of enclosing loops / switches decides what an unlabelled break / continue refers to
+	var walk func(n ast.Node, loopDepth, breakDepth int)
+	walk = func(n ast.Node, loopDepth, breakDepth int) {
+		if n == nil || bad != nil {
+			return
+		}
+		switch x := n.(type) {
+		case *ast.FuncLit:
+			// its own returns; but it must not use the inner map variable either
+			ast.Inspect(x, func(m ast.Node) bool {
+				if id, ok := m.(*ast.Ident); ok && info.Uses[id] == mObj {
+					bad = fmt.Errorf("the per-name map is used in the loop body")
+				}
+				return true
+			})
+			return
+		case *ast.Ident:
+			if info.Uses[x] == mObj {
+				bad = fmt.Errorf("the per-name map is used in the loop body")
+			}
+			return
+		case *ast.ReturnStmt:
+			bad = fmt.Errorf("return in the loop body")
+			return
+		case *ast.DeferStmt:
+			bad = fmt.Errorf("defer in the loop body")
+			return
+		case *ast.LabeledStmt:
+			bad = fmt.Errorf("label in the loop body")
+			return
+		case *ast.BranchStmt:
+			if x.Label != nil || x.Tok == token.GOTO {
+				bad = fmt.Errorf("labelled branch in the loop body")
+				return
+			}
+			switch x.Tok {
+			case token.CONTINUE:
+				if loopDepth == 0 {
+					eds = append(eds, textEdit{tf.Offset(x.Pos()), tf.Offset(x.End()), "return"})
+				}
+			case token.BREAK:
+				if breakDepth == 0 {
+					bad = fmt.Errorf("break out of the inner loop")
+				}
+			}
+			return
+		case *ast.ForStmt:
+			walk(x.Init, loopDepth, breakDepth)
+			walk(x.Cond, loopDepth, breakDepth)
+			walk(x.Post, loopDepth, breakDepth)
+			walk(x.Body, loopDepth+1, breakDepth+1)
+			return
+		case *ast.RangeStmt:
+			walk(x.X, loopDepth, breakDepth)
+			walk(x.Body, loopDepth+1, breakDepth+1)
+			return
+		case *ast.SwitchStmt:
+			walk(x.Init, loopDepth, breakDepth)
+			walk(x.Tag, loopDepth, breakDepth)
+			walk(x.Body, loopDepth, breakDepth+1)
+			return
+		case *ast.TypeSwitchStmt:
+			walk(x.Init, loopDepth, breakDepth)
+			walk(x.Assign, loopDepth, breakDepth)
+			walk(x.Body, loopDepth, breakDepth+1)
+			return
+		case *ast.SelectStmt:
+			walk(x.Body, loopDepth, breakDepth+1)
+			return
+		}
+		// generic children
+		first := true
+		ast.Inspect(n, func(m ast.Node) bool {
+			if first {
+				first = false
+				return true
+			}
+			if m != nil {
+				walk(m, loopDepth, breakDepth)
+			}
+			return false
+		})
+	}
+	walk(inner.Body, 0, 0)
+	if bad != nil {
+		return nil, "", bad
+	}
+	name := func(e ast.Expr) string {
+		if id, ok := e.(*ast.Ident); ok && e != nil {
+			return id.Name
+		}
+		return "_"
+	}
+	var qerr error
+	qual := fileQualifier(l.pkg, l.file, &qerr)
+	elem := types.TypeString(l.elem, qual)
+	if qerr != nil {
+		return nil, "", qerr
+	}
+	k1 := "_"
+	if l.outer.Key != nil {
+		k1 = name(l.outer.Key)
+	}
+	k2, v := "_", "_"
+	if inner.Key != nil {
+		k2 = name(inner.Key)
+	}
+	if inner.Value != nil {
+		v = name(inner.Value)
+	}
+	// body text with the continue edits applied
+	bs, be := tf.Offset(inner.Body.Lbrace), tf.Offset(inner.Body.Rbrace)+1
+	var rel []textEdit
+	for _, e := range eds {
+		rel = append(rel, textEdit{e.s - bs, e.e - bs, e.t})
+	}
+	body := string(applyTextEdits(content[bs:be], rel))
+	x := src(l.outer.X)
+	if _, isComposite := ast.Unparen(l.outer.X).(*ast.CompositeLit); isComposite {
+		x = "(" + x + ")"
+	}
+	text := fmt.Sprintf("%s.Each(func(%s string, %s string, %s %s) %s)", x, k1, k2, v, elem, body)
+	out := applyTextEdits(content, []textEdit{{tf.Offset(l.outer.Pos()), tf.Offset(l.outer.End()), text}})
+	return out, fmt.Sprintf("rewrote the traversal loops over %s at %s as a call of Each", x, l.pkg.Fset.Position(l.outer.Pos())), nil
+}
+
+// ---- for clauses: for INIT; COND; POST { BODY } with a new helper called in INIT or POST ----
+//
+// A call in the init or post clause of a for statement cannot be replaced by statements.  The loop is
+// written out (same behaviour: POST runs after the body and after every continue):
+//
+//	{ INIT; loop__N: for COND { body__N: switch { default: BODY' }; POST } }
+//
+// with  continue -> break body__N  and  break -> break loop__N  for the branches that refer to this loop.
+
+type forClauseUse struct {
+	loop *ast.ForStmt
+	file *ast.File
+	pkg  *packages.Package
+	fn   *types.Func
+	encl string
+}
+
+func forClauseHelperCalls(pkgs []*packages.Package, helpers map[*types.Func]declInfo, skip map[string]bool) []forClauseUse {
+	var out []forClauseUse
+	for _, d := range moduleDecls(pkgs) {
+		info := d.pkg.TypesInfo
+		ast.Inspect(d.decl.Body, func(n ast.Node) bool {
+			loop, ok := n.(*ast.ForStmt)
+			if !ok {
+				return true
+			}
+			for _, clause := range []ast.Stmt{loop.Init, loop.Post} {
+				if clause == nil {
+					continue
+				}
+				var hit *types.Func
+				ast.Inspect(clause, func(m ast.Node) bool {
+					if _, isLit := m.(*ast.FuncLit); isLit {
+						return false
+					}
+					if call, isCall := m.(*ast.CallExpr); isCall {
+						if fn, _ := typeutil.Callee(info, call).(*types.Func); fn != nil {
+							if _, isNew := helpers[fn.Origin()]; isNew && !skip["forclause:"+fn.FullName()] {
+								hit = fn
+							}
+						}
+					}
+					return true
+				})
+				if hit != nil {
+					out = append(out, forClauseUse{loop: loop, file: d.file, pkg: d.pkg, fn: hit, encl: d.fn.FullName()})
+					break
+				}
+			}
+			return true
+		})
+	}
+	return out
+}
+
+var forClauseCounter int
+
+func forClauseStep(u forClauseUse, content []byte) ([]byte, string, error) {
+	tf := u.pkg.Fset.File(u.file.Pos())
+	src := func(n ast.Node) string { return string(content[tf.Offset(n.Pos()):tf.Offset(n.End())]) }
+	path := enclosingPath(u.file, u.loop)
+	if len(path) >= 2 {
+		if _, labelled := path[1].(*ast.LabeledStmt); labelled {
+			return nil, "", fmt.Errorf("labelled loop")
+		}
+		switch path[1].(type) {
+		case *ast.BlockStmt, *ast.CaseClause, *ast.CommClause:
+		default:
+			return nil, "", fmt.Errorf("loop is not a statement of a block")
+		}
+	}
+	forClauseCounter++
+	loopL, bodyL := fmt.Sprintf("loop__f%d", forClauseCounter), fmt.Sprintf("body__f%d", forClauseCounter)
+	var eds []textEdit
+	var bad error
+	usedLoopLabel := false
+	var walk func(n ast.Node, loopDepth, breakDepth int)
+	walk = func(n ast.Node, loopDepth, breakDepth int) {
+		if n == nil || bad != nil {
+			return
+		}
+		switch x := n.(type) {
+		case *ast.FuncLit:
+			return
+		case *ast.BranchStmt:
+			if x.Label != nil || x.Tok == token.GOTO || x.Tok == token.FALLTHROUGH {
+				return // refers to another statement
+			}
+			switch x.Tok {
+			case token.CONTINUE:
+				if loopDepth == 0 {
+					eds = append(eds, textEdit{tf.Offset(x.Pos()), tf.Offset(x.End()), "break " + bodyL})
+				}
+			case token.BREAK:
+				if breakDepth == 0 {
+					eds = append(eds, textEdit{tf.Offset(x.Pos()), tf.Offset(x.End()), "break " + loopL})
+					usedLoopLabel = true
+				}
+			}
+			return
+		case *ast.ForStmt:
+			walk(x.Body, loopDepth+1, breakDepth+1)
+			return
+		case *ast.RangeStmt:
+			walk(x.Body, loopDepth+1, breakDepth+1)
+			return
+		case *ast.SwitchStmt:
+			walk(x.Body, loopDepth, breakDepth+1)
+			return
+		case *ast.TypeSwitchStmt:
+			walk(x.Body, loopDepth, breakDepth+1)
+			return
+		case *ast.SelectStmt:
+			walk(x.Body, loopDepth, breakDepth+1)
+			return
+		}
+		first := true
+		ast.Inspect(n, func(m ast.Node) bool {
+			if first {
+				first = false
+				return true
+			}
+			if m != nil {
+				walk(m, loopDepth, breakDepth)
+			}
+			return false
+		})
+	}
+	walk(u.loop.Body, 0, 0)
+	if bad != nil {
+		return nil, "", bad
+	}
+	bs, be := tf.Offset(u.loop.Body.Lbrace), tf.Offset(u.loop.Body.Rbrace)+1
+	var rel []textEdit
+	for _, e := range eds {
+		rel = append(rel, textEdit{e.s - bs, e.e - bs, e.t})
+	}
+	body := string(applyTextEdits(content[bs:be], rel))
+	var b strings.Builder
+	b.WriteString("{\n")
+	if u.loop.Init != nil {
+		b.WriteString(src(u.loop.Init) + "\n")
+	}
+	if usedLoopLabel {
+		b.WriteString(loopL + ":\n")
+	}
+	b.WriteString("for ")
+	if u.loop.Cond != nil {
+		b.WriteString(src(u.loop.Cond) + " ")
+	}
+	b.WriteString("{\n" + bodyL + ":\nswitch {\ndefault:\n" + body + "\n}\n")
+	if u.loop.Post != nil {
+		b.WriteString(src(u.loop.Post) + "\n")
+	}
+	b.WriteString("}\n}")
+	out := applyTextEdits(content, []textEdit{{tf.Offset(u.loop.Pos()), tf.Offset(u.loop.End()), b.String()}})
+	return out, fmt.Sprintf("wrote out the for clauses at %s (a new helper is called in the init or post statement)", u.pkg.Fset.Position(u.loop.Pos())), nil
 }
